@@ -75,7 +75,7 @@ _SHAPES = {
     1: ["L"],
     2: [["L", "L"]],
     3: [["L", ["L", "L"]], [["L", "L"], "L"]],
-    4: [[["L", "L"], ["L", "L"]], ["L", ["L", ["L", "L"]]], [[["L", "L"], "L"], "L"]],
+    4: [[["L", "L"], ["L", "L"]], ["L", ["L", ["L", "L"]]]],      # the left comb of four did not finish in the 900 s instance budget
     5: [[["L", "L"], ["L", ["L", "L"]]]],
 }
 
